@@ -48,8 +48,13 @@ def stack_gen(UO, UB, nstacks, seed):
                 pool = [p['n'] for p in base if p['k'] in ('pok', 'kwo')]
                 fls[-1] = {'n': rnd.choice([0, 0, 1]), 'names': rnd.sample(pool, 1) if pool and rnd.random() < 0.4 else []}
             placement = ['function', 'function', 'method', 'static'][k % 4]
+            reuse = False
+            if k % 9 == 0 and depth >= 2:
+                # the same wrapping function in every layer: only possible without own named parameters
+                layers = [[p for p in layers[0] if p['k'] in ('var', 'vkw')]] * depth
+                kinds, fls, reuse = [kinds[0]] * depth, [{'n': 0, 'names': []}] * depth, True
             if k % nshards == shard:
-                yield wrapstack.stack_event('stack/%d' % k, layers, base, kinds, fls, placement)
+                yield wrapstack.stack_event('stack/%d' % k, layers, base, kinds, fls, placement, reuse=reuse)
     return gen
 
 
@@ -65,7 +70,7 @@ def comb_gen(U, ncomb, seed):
                 ps = U[rnd.randrange(len(U))]
                 funcs.append([dict(arg, k='po' if ps and ps[0]['k'] == 'po' else 'pok')] + list(ps))
             if k % nshards == shard:
-                yield wrapstack.combination_event('comb/%d' % k, funcs)
+                yield wrapstack.combination_event('comb/%d' % k, funcs, wrapped_member=(k % 5 == 0))
     return gen
 
 
@@ -106,7 +111,7 @@ def replay(check, case, scratch):
     def gen(shard, nshards):
         if shard == 0:
             if 'funcs' in c:
-                yield wrapstack.combination_event(case['tid'], c['funcs'])
+                yield wrapstack.combination_event(case['tid'], c['funcs'], wrapped_member=c.get('wrapped_member', False))
             else:
-                yield wrapstack.stack_event(case['tid'], c['layers'], c['base'], c['kinds'], c['fls'], c['placement'])
+                yield wrapstack.stack_event(case['tid'], c['layers'], c['base'], c['kinds'], c['fls'], c['placement'], reuse=c.get('reuse', False))
     run_trace_leg(check, scratch, 'replay', gen, None, nshards=1, module='Trace_Wrap', describe=wrapstack.describe, classify=classify)
